@@ -309,3 +309,35 @@ Qed.
 
 Example ex_prog_parses : parse_vcl (fun _ => true) (flat_map ystmt ex_prog) = POK (Vcl ex_prog false).
 Proof. vm_compute. reflexivity. Qed.
+
+(* parser state across nesting: a switch nested in a case of a switch; the nested label "b" recurs
+   in a LATER clause of the outer switch - the duplicate bookkeeping [book] is per switch:
+   sub f { switch (x) { case "a": switch (x) { case "b": break; } break; case "b": break; } } *)
+Definition brk : stmt := SBreak (k_ T_BREAK "break") (k_ T_SEMICOLON ";").
+Definition case_ (l : string) (body : list stmt) : scase :=
+  Case (CCase (k_ T_CASE "case") (CTEq (EString (tstr l) (s2b l)))) (k_ T_COLON ":") body false.
+Definition sw (cases : list scase) : stmt :=
+  SSwitch (k_ T_SWITCH "switch") (k_ T_LEFT_PAREN "(") (EIdent (k_ T_IDENT "x")) (k_ T_RIGHT_PAREN ")")
+          (k_ T_LEFT_BRACE "{") cases (-1)%Z (k_ T_RIGHT_BRACE "}").
+Definition ex_nested : list stmt :=
+  [ DSub (k_ T_SUBROUTINE "sub") (k_ T_IDENT "f") None None (k_ T_LEFT_BRACE "{")
+      [ sw [ case_ "a" [ sw [ case_ "b" [brk] ]; brk ]; case_ "b" [brk] ] ]
+      (k_ T_RIGHT_BRACE "}") ].
+
+Example ex_nested_canonical : cprog (fun _ => true) ex_nested.
+Proof.
+  cbn [cprog ex_nested]. split; [|exact I]. cbn [cdeclx cdecl]. repeat split; try reflexivity.
+  apply cb_cons; [|apply cb_nil; reflexivity].
+  apply c_switch; [reflexivity | reflexivity | reflexivity | reflexivity | reflexivity | | vm_compute; reflexivity | vm_compute; reflexivity].
+  apply cs_cons; [vm_compute; repeat split; reflexivity | reflexivity | |].
+  - apply cy_cons.
+    + apply c_switch; [reflexivity | reflexivity | reflexivity | reflexivity | reflexivity | | vm_compute; reflexivity | vm_compute; reflexivity].
+      apply cs_cons; [vm_compute; repeat split; reflexivity | reflexivity | | apply cs_nil; reflexivity].
+      apply cy_break; try reflexivity. right. right. reflexivity.
+    + apply cy_break; try reflexivity. left. reflexivity.
+  - apply cs_cons; [vm_compute; repeat split; reflexivity | reflexivity | | apply cs_nil; reflexivity].
+    apply cy_break; try reflexivity. right. right. reflexivity.
+Qed.
+
+Example ex_nested_parses : parse_vcl (fun _ => true) (flat_map ystmt ex_nested) = POK (Vcl ex_nested false).
+Proof. apply program_roundtrip. exact ex_nested_canonical. Qed.
